@@ -32,11 +32,11 @@ CLAIMS = {
          "One recorded finding (alias-less @Path not checked against URL names) is reported as KNOWN-FINDING.",
          "Bounds as coded in harness/.../core/validators/zz_verif_c10.go. Outside: error-embedding lookup of the return type (go/types), controller-prefix URL names, slices/enums/aliases as parameter types (HIR shapes produced by the visitors), the pipeline gate (not yet covered).",
          "DESIGN.md 4 (C10)"),
- "C06": ("For every validator string up to the stated length over the tag alphabet, every pointer-ness and every parameter location, "
-         "the real appendParamRequiredValidation + IsFieldRequired agree with the requiredness rule of the property (solver-decided per path, "
-         "all paths of the bound explored).",
-         "Bounds as coded in harness/.../core/metadata/zz_verif_c06.go; strings are concrete-length symbolic byte vectors; "
-         "intrinsic models for bytealg/strings.Builder/fmt as listed in the evidence; how TypeMeta is derived from Go types is outside.",
+ "C06": ("(a) Requiredness kernel: for every validator string up to 9 (thorough 12) bytes over the tag alphabet, pointer-ness and location, appendParamRequiredValidation + IsFieldRequired agree with the property's rule. "
+         "(b) Documents: for routes with up to 2 parameters (context or one of 5 locations, symbolic wire name, 5 type shapes, 4 validators) and, separately, symbolic return shape / success code / 0-2 error codes / error type, "
+         "both emitters document exactly the non-context path/query/header parameters in signature order (name, location, required, schema), the JSON body or the urlencoded form object with its required entries, "
+         "the success response with the value schema or no content, each error code with the error schema (RFC-7807 for plain error), and a description on every response; 3.0 and 3.1 agree (one recorded 3.0-only `default` response).",
+         "Bounds as coded in harness/.../core/metadata/zz_verif_c06.go and generator/swagen/zz_verif_c06.go. Routes are assumed accepted (at most one body, never body with form; unique wire names per location). Outside: how TypeMeta is derived from Go types.",
          "DESIGN.md 4 (C06)"),
  "C11": ("Dialect agreement, decided on shared symbolic inputs inside one path: (kernel) for every validation string of up to 2 rules from the converters' vocabulary (or a junk rule) with symbolic values of up to 2 bytes, on 6 field types, "
          "BuildSchemaValidation (3.0) and BuildSchemaValidationV31 yield the same format, pattern, numeric bounds with exclusivity, length and item bounds, uniqueItems and enum value lists after dialect translation; "
